@@ -210,6 +210,69 @@ func vfcDirected(t *testing.T, tr *vfTrace, firstHist int, seed int64) int {
 			c.probeDir(c.fresh(R, "e"), "c")
 		})
 	}
+	// ---- family 4: another client's read-only requests land between two backend operations of a
+	// mutating request (deterministic interleaving at every backend-operation boundary); what
+	// they cached must not survive the mutation
+	for _, cfg := range []vfcCfg{{Neg: true, Dir: true, TTL: "def", Profile: "ns"}, {Neg: false, Dir: false, TTL: "def", Profile: "ns"}} {
+		for _, mut := range []string{"create", "mkdir", "symlink", "remove", "rename", "write", "setattr"} {
+			for k := 1; k <= 8; k++ {
+				mut, k := mut, k
+				reached := false
+				run(cfg, func(c *vfcClient, R uint64) {
+					c.mkdir(R, "a", dirMode)
+					a := c.handleOf("a")
+					c.create(a, "old", 0, fileMode, "")
+					c.write(c.handleOf("a", "old"), "small", 0, []byte{7, 7, 7}, 2)
+					c.probeDir(a, "n", "old", "new")
+					c.flush()
+					count := 0
+					c.fs.Gate = func(op, p string) {
+						count++
+						if count != k {
+							return
+						}
+						reached = true
+						g := c.fs.Gate
+						c.fs.Gate = nil
+						// the other client: not logged (its replies may see the intermediate state)
+						for _, nm := range []string{"n", "old", "new"} {
+							c.env.Do(NFSPROC3_LOOKUP, vfArgsDirOp(a, nm), vfRoot)
+						}
+						c.env.Do(NFSPROC3_READDIRPLUS, vfArgsReaddirplus(a, 0, [8]byte{}, 65536, 1<<20), vfRoot)
+						c.env.Do(NFSPROC3_READDIR, vfArgsReaddir(a, 0, [8]byte{}, 1<<20), vfRoot)
+						c.fs.TakeCalls()
+						c.fs.Gate = g
+					}
+					switch mut {
+					case "create":
+						c.create(a, "n", 1, vfSattr{Mode: u32p(0600)}, "")
+					case "mkdir":
+						c.mkdir(a, "n", vfSattr{Mode: u32p(0700)})
+					case "symlink":
+						c.symlink(a, "n", "old", vfSattr{})
+					case "remove":
+						c.remove(a, "old")
+					case "rename":
+						c.rename(a, "old", a, "new")
+					case "write":
+						c.write(c.handleOf("a", "old"), "small", 2, []byte{1, 2, 3, 4, 5, 6}, 2)
+					case "setattr":
+						c.setattr(c.handleOf("a", "old"), vfSattr{Mode: u32p(0600), Size: u64p(1)})
+					}
+					if reached {
+						// the outcome of the interleaved request itself is judged like any other;
+						// its calls list misses what the nested requests took, which only matters
+						// to profiles that judge backend calls
+					}
+					c.fs.Gate = nil
+					c.probeDir(a, "n", "old", "new")
+				})
+				if !reached {
+					break // the request has fewer than k backend operations
+				}
+			}
+		}
+	}
 	_ = fmt.Sprint
 	return n
 }
